@@ -4,7 +4,9 @@
 mod alloc;
 mod tok;
 mod m_vec;
-mod m_arc;
+mod m_arc { pub type Tok = crate::tok::Tok; include!("m_arc.rs"); }
+/// the same harness over a payload aligned to 64 bytes (its Arc keeps the counts 64 bytes before the payload; an erased clone must still find them)
+mod m_arc_a { pub type Tok = crate::tok::TokA64; include!("m_arc.rs"); }
 mod m_intres;
 mod m_cstr;
 mod m_cb;
@@ -63,7 +65,7 @@ fn main() {
         let mut mon = Mon::default();
         alloc::domain(1);
         let rows = match hdr[0] {
-            10 => m_arc::run(&hdr[1..], &rows_in, &mut mon),
+            10 => if hdr.get(2) == Some(&1) { m_arc_a::run(&hdr[1..], &rows_in, &mut mon) } else { m_arc::run(&hdr[1..], &rows_in, &mut mon) },
             11 => m_vec::run(&hdr[1..], &rows_in, &mut mon),
             12 => m_slice::run(&hdr[1..], &rows_in, &mut mon),
             13 => m_intres::run(&hdr[1..], &rows_in, &mut mon),
@@ -71,8 +73,8 @@ fn main() {
             15 => m_cb::run(&hdr[1..], &rows_in, &mut mon),
             19 => m_waker::run(&hdr[1..], &rows_in, &mut mon),
             119 => m_waker::run_threads(&hdr[1..], &rows_in, &mut mon),
-            110 => m_arc::run_threads(&hdr[1..], &rows_in, &mut mon),
-            210 => m_arc::run_calls(&hdr[1..], &rows_in, &mut mon),
+            110 => if hdr.get(3) == Some(&1) { m_arc_a::run_threads(&hdr[1..], &rows_in, &mut mon) } else { m_arc::run_threads(&hdr[1..], &rows_in, &mut mon) },
+            210 => if hdr.get(1) == Some(&1) { m_arc_a::run_calls(&hdr[1..], &rows_in, &mut mon) } else { m_arc::run_calls(&hdr[1..], &rows_in, &mut mon) },
             21 => m_box::run(&hdr[1..], &rows_in, &mut mon),
             _ => vec![vec![-3]],
         };
